@@ -161,14 +161,10 @@ func (t *topo) build(r *vlib.Rand, hops []hopT, now time.Time, id uint16) *seg.P
 	exp := uint8(r.Intn(64))
 	life := time.Duration(int(exp)+1) * 337500 * time.Millisecond
 	var ts time.Time
-	switch {
-	case r.Chance(25): // expired
-		ts = now.Add(-life - time.Duration(r.Range(5, 4000))*time.Second)
-	default:
-		ts = now.Add(-time.Duration(r.Intn(int(life/time.Second)-5)) * time.Second)
-		if life < 12*time.Second {
-			ts = now.Add(-time.Second)
-		}
+	if r.Chance(25) { // expired at least 20 s ago
+		ts = now.Add(-life - time.Duration(r.Range(20, 4000))*time.Second)
+	} else { // at least 20 s of lifetime left (life >= 337 s)
+		ts = now.Add(-time.Duration(r.Intn(int(life/time.Second)-20)) * time.Second)
 	}
 	ts = ts.Truncate(time.Second)
 	ps, err := seg.CreateSegment(ts, id)
@@ -316,7 +312,7 @@ func tyName(t seg.Type) string {
 func main() {
 	e := vlib.Init()
 	e.Rule = "random topologies (2-3 ISDs, 1-3 cores each, 0-4 non-core ASes with 1-2 parents, random core links); all up/down/core " +
-		"segments with random timestamps/expiries (25% expired, 20% hops shorter; never within 5 s of now); revocation histories " +
+		"segments with random timestamps/expiries (25% expired, 20% hops shorter; never within 20 s of now); revocation histories " +
 		"(expired, active, superseded) on interfaces of the segments; 6 lookups per topology from a random AS to a random AS / ISD " +
 		"wildcard / itself / ISD 0, real Pather + real Combine + real memrevcache + real MultiSegmentSplitter (with and without " +
 		"inspector, inspector errors); splitter lines for every lookup; non-trivial = lookup reached the combinator"
@@ -369,20 +365,20 @@ func main() {
 		if len(allIfs) > 0 {
 			for k, n := 0, r.Intn(5); k < n; k++ {
 				x := allIfs[r.Intn(len(allIfs))]
-				ttl := uint32(r.Range(10, 600))
+				ttl := uint32(r.Range(30, 600))
 				var ts time.Time
 				switch r.Intn(4) {
 				case 0: // expired long ago
-					ts = now.Add(-time.Duration(ttl)*time.Second - time.Duration(r.Range(5, 500))*time.Second)
-				default: // active for at least 5 more seconds
-					ts = now.Add(-time.Duration(r.Intn(int(ttl)-5)) * time.Second)
+					ts = now.Add(-time.Duration(ttl)*time.Second - time.Duration(r.Range(20, 500))*time.Second)
+				default: // active for at least 20 more seconds
+					ts = now.Add(-time.Duration(r.Intn(int(ttl)-20)) * time.Second)
 				}
 				rev := &path_mgmt.RevInfo{IfID: iface.ID(x.id), RawIsdas: x.ia, LinkType: proto.LinkType_core,
 					RawTimestamp: uint32(ts.Unix()), RawTTL: ttl}
 				if _, err := rc.Insert(ctx, rev); err != nil {
 					panic(err)
 				}
-				if rev.Expiration().After(now.Add(3 * time.Second)) {
+				if rev.Expiration().After(now.Add(10 * time.Second)) {
 					k := fmt.Sprintf("%s#%d", iaStr(x.ia), x.id)
 					if !active[k] {
 						active[k] = true
